@@ -184,6 +184,8 @@ func (o *OTP) LoginPost(w http.ResponseWriter, r *http.Request) error {
 	logger.Infof("user %s logged in via otp", pid)
 	authboss.PutSession(w, authboss.SessionKey, pid)
 	authboss.DelSession(w, authboss.SessionHalfAuthKey)
+	// See auth.LoginPost: an earlier user's second factor does not carry over
+	authboss.DelSession(w, authboss.Session2FA)
 
 	handled, err = o.Authboss.Events.FireAfter(authboss.EventAuth, w, r)
 	if err != nil {
